@@ -1040,6 +1040,10 @@ class ExprMixin:
     def on_yield(self, st, v, node):
         pass
 
+    def on_yield_from(self, st, gen, node):
+        """`yield from gen` with a generator of unknown length (gen: the delegated-to value)."""
+        self.on_yield(st, VUnk("yield-from"), node)
+
     def e_YieldFrom(self, n, st):
         out = []
         for (s, v) in self.ev(n.value, st):
@@ -1048,7 +1052,7 @@ class ExprMixin:
                 s.yielded = s.yielded + items
             else:
                 s.ghost["yield_count_unknown"] = True
-                self.on_yield(s, VUnk("yield-from"), n)
+                self.on_yield_from(s, v, n)
             out.append((s, NONE))
         return out
 
